@@ -233,6 +233,10 @@ def run(chk, tier):
     stack_deleg(chk, db)
     pair_rule(chk, db)
     alias_rule(chk, D.load("plain"))
+    # POST: the size each mutating member leaves equals the specified one (callees by their own specification)
+    npost = slots.check_post(chk, D.load("plain"), ["static_vector", "inplace_vector"])
+    if npost < 18:
+        chk.analysis_broken("POST: only %d specified mutating members found (floor 18)" % npost)
     # SLOTS-W: a raw size store that may grow the vector is on a path that writes the newly exposed slots
     nsl = slots.check(chk, D.load("plain"), ["static_vector", "inplace_vector"], lambda r: False, only=("W",))
     if chk.rule_instances.get("SLOTS-W", 0) < 5:
